@@ -750,7 +750,9 @@ func (stmt *Statement) SelectAndOmitColumns(requireCreate, requireUpdate bool) (
 			if name == "" {
 				// without a column only a relation is addressed by its field name; the name of an
 				// ignored field may be the column of another field
-				if _, ok := stmt.Schema.Relationships.Relations[field.Name]; !ok {
+				// (told apart by the tag: the relation map of a published schema is still written when
+				// another model that points at this one is parsed for the first time)
+				if _, ignored := field.TagSettings["-"]; ignored {
 					continue
 				}
 				name = field.Name
